@@ -686,9 +686,16 @@ func Poll(op string, site uintptr) {
 var runMu sync.Mutex
 
 // Run performs one execution of body under the scheduler, replaying prefix and then taking choice 0.
+// RunSeq numbers the executions of this process; state that must not leak from one execution into the next
+// (vsync.Pool contents) is keyed on it.
+func RunSeq() uint64 { return atomic.LoadUint64(&runSeq) }
+
+var runSeq uint64
+
 func Run(cfg Config, prefix []int, body func()) *Result {
 	runMu.Lock()
 	defer runMu.Unlock()
+	atomic.AddUint64(&runSeq, 1)
 	if cfg.MaxPoints == 0 {
 		cfg.MaxPoints = 200000
 	}
